@@ -373,6 +373,12 @@ static int32_t nextUpdateTest(const char *c, int32 timeType)
     psBrokenDownTime_t nextTime;
     psBrokenDownTime_t nextTimeLinger;
 
+    if (c == NULL)
+    {
+        /* nextUpdate is OPTIONAL in the encoding: a CRL without one cannot
+           be shown to be current. */
+        return -1;
+    }
     err = psGetBrokenDownGMTime(&timeNow, 0);
     if (err != PS_SUCCESS)
     {
@@ -1004,7 +1010,7 @@ int32 psX509ParseCRL(psPool_t *pool, psX509Crl_t **crl, unsigned char *crlBin,
     p += timelen;   /* Move p beyond thisUpdate TIME. */
 
     /* nextUpdateTIME - Optional... but required by spec */
-    if ((end - p) < 1 || ((*p == ASN_UTCTIME) || (*p == ASN_GENERALIZEDTIME)))
+    if ((end - p) >= 1 && ((*p == ASN_UTCTIME) || (*p == ASN_GENERALIZEDTIME)))
     {
         lcrl->nextUpdateType = timetag = *p;
         p++;
